@@ -77,8 +77,14 @@ fn deserialize<'a>(ty: &OwnedDataModelType, data: &'a [u8]) -> Result<(Value, &'
         OwnedDataModelType::I128 => {
             let (val, rest) = try_take_varint_u128(data)?;
             let val = de_zig_zag_i128(val);
-            let val = i64::try_from(val).map_err(|_| Error::ShouldSupportButDont)?;
-            let val = Value::Number(Number::from(val));
+            // serde_json holds an i128 up to u64::MAX as an unsigned number
+            let val = match i64::try_from(val) {
+                Ok(v) => Value::Number(Number::from(v)),
+                Err(_) => {
+                    let v = u64::try_from(val).map_err(|_| Error::ShouldSupportButDont)?;
+                    Value::Number(Number::from(v))
+                }
+            };
             Ok((val, rest))
         }
         OwnedDataModelType::U16 => {
